@@ -10,6 +10,11 @@ SIGKEEP = ("(length(siglog) >= length(old(siglog)) and forall(INT, lambda i: imp
 
 
 def declare(spec):
+    declare_main(spec)
+    declare_kernel(spec)
+
+
+def declare_main(spec):
     spec.pred('kstep', [], KSTEP)
     spec.assumptions['T-PSUTIL'] = 'contracts of Process.is_alive/send_signal/children/stop/status over the kernel ghost K_alive'
     spec.assumptions['A-PIDREUSE'] = 'a pid is not reused by the OS within the life of its Process object'
@@ -44,3 +49,60 @@ def declare(spec):
                                'length(siglog) <= length(old(siglog)) + 1'],
                       note='Process.stop: terminate() (SIGTERM) only if still alive, then closes both pipes; '
                            'swallows NoSuchProcess'))
+
+
+def declare_kernel(spec):
+    """T-KERNEL: waitpid / wait-status macros over the ghost child table.
+    K_child = children not yet reaped (alive or zombie); K_alive subset of K_child;
+    K_exit[pid] = how a terminated child ended: exit status 0..255, or -signal."""
+    spec.ghost('K_child', Set(INT))
+    spec.ghost('K_exit', Dict(INT, INT))
+    spec.pred('wdecode', [('s', INT)], "ite(s % 128 == 0, (s // 256) % 256, 0 - (s % 128))", ret=INT)
+    spec.pred('wstatus_ok', [('s', INT)], "0 <= s and s < 65536 and s % 128 != 127")
+    CH_SAME = "forall(INT, lambda p: (p in K_child) == (p in old(K_child)))"
+    CH_MINUS = "forall(INT, lambda p: (p in K_child) == ((p in old(K_child)) and p != %s))"
+    spec.add(Contract(
+        'os:waitpid', params={'pid': INT, 'options': INT}, ret=Tuple(INT, INT), trusted=True,
+        requires=['options == 1', 'pid > 0 or pid == 0 - 1'],
+        modifies=['K_alive', 'K_child'],
+        ensures=[
+            'kstep()',
+            # a specific child
+            "implies(pid > 0 and (pid in K_alive), result[0] == 0 and result[1] == 0 and %s)" % CH_SAME,
+            "implies(pid > 0 and not (pid in K_alive), result[0] == pid and wstatus_ok(result[1]) and "
+            "wdecode(result[1]) == K_exit[pid] and %s)" % (CH_MINUS % 'pid'),
+            'implies(pid > 0, pid in old(K_child))',
+            # any child (-1): 0 = no terminated child waiting; otherwise the pid that was reaped
+            "implies(pid < 0 and result[0] == 0, %s and forall(INT, lambda p: implies(p in K_child, p in K_alive)))" % CH_SAME,
+            "implies(pid < 0 and result[0] != 0, result[0] > 0 and (result[0] in old(K_child)) and "
+            "not (result[0] in K_alive) and wstatus_ok(result[1]) and wdecode(result[1]) == K_exit[result[0]] and %s)"
+            % (CH_MINUS % 'result[0]'),
+            'implies(pid < 0, result[0] >= 0)',
+        ],
+        raises={'OSError': ['kstep()', CH_SAME, 'errno == 10',
+                            'implies(pid > 0, not (pid in old(K_child)))',
+                            'implies(pid < 0, forall(INT, lambda p: not (p in old(K_child))))']},
+        exc_modifies=['K_alive', 'K_child'],
+        note='T-KERNEL waitpid(pid, WNOHANG): never blocks; (0,0) while the child runs; reaps a terminated '
+             'child exactly once; ECHILD when there is nothing to wait for'))
+    spec.add(Contract('os:WIFSIGNALED', params={'s': INT}, ret=BOOL, trusted=True, modifies=[],
+                      ensures=['result == (s % 128 != 0 and s % 128 != 127)'],
+                      inline='s % 128 != 0 and s % 128 != 127', note='T-KERNEL Linux wait-status layout'))
+    spec.add(Contract('os:WIFEXITED', params={'s': INT}, ret=BOOL, trusted=True, modifies=[],
+                      ensures=['result == (s % 128 == 0)'], inline='s % 128 == 0'))
+    spec.add(Contract('os:WTERMSIG', params={'s': INT}, ret=INT, trusted=True, modifies=[],
+                      ensures=['result == s % 128'], inline='s % 128'))
+    spec.add(Contract('os:WEXITSTATUS', params={'s': INT}, ret=INT, trusted=True, modifies=[],
+                      ensures=['result == (s // 256) % 256'], inline='(s // 256) % 256'))
+    spec.add(Contract('time:sleep', params={'d': REAL}, trusted=True, modifies=['clock', 'K_alive'],
+                      ensures=['kstep()', 'clock >= old(clock) + d'],
+                      note='T-KERNEL time.sleep: BLOCKS the event loop for d seconds (C05 frame-scan)'))
+    spec.add(Contract('circus.process:Process.returncode', ret=VAL, trusted=True, modifies=[],
+                      ensures=['is_none(result) or is_int(result)'],
+                      note='T-PSUTIL Popen.returncode: None or the recorded return code'))
+    spec.add(Contract('circus.process:Process.status', kind='property', ret=INT, trusted=True,
+                      modifies=['K_alive'],
+                      ensures=['kstep()', '0 <= result and result <= 3',
+                               'implies(result == 1 or result == 2, not (self.pid in K_alive))',
+                               'implies(result == 0, self.pid in K_alive)'],
+                      note='T-PSUTIL Process.status: RUNNING(0) / DEAD_OR_ZOMBIE(1) / UNEXISTING(2) / OTHER(3)'))
